@@ -100,6 +100,15 @@ def build_table_mir(body, adt):
     return out
 
 
+def parse_delegation(body):
+    """FromStr written as a delegation to the clap-derived parser: <Self as ValueEnum>::from_str(s, ignore_case).
+    Returns the ignore_case argument node when that is the whole parser, else None."""
+    calls = [c for c in walk(body.value) if c.get("k") in ("call", "mcall") and (callee(c) or "") == "clap::ValueEnum::from_str"]
+    if len(calls) == 1 and not [m for m in find_matches(body.value) if len(m["arms"]) >= 3]:
+        return calls[0]
+    return None
+
+
 def parse_table(body):
     m = the_match(body, body.path)
     tab = {}
@@ -179,7 +188,19 @@ def run(ck, F, tier):
 
     T_build = build_table(b_build)
     T_mir = build_table_mir(b_build, adt)
-    T_parse, wild = parse_table(b_parse)
+    deleg = parse_delegation(b_parse)
+    if deleg is not None:
+        # the accepted strings are then the clap possible values (T4 ties those to the Display texts); matching must be exact
+        flag = lit_value(deleg["args"][-1]) if deleg.get("args") else None
+        exact = flag is False
+        ck.inst("T2", "parse:delegates-to-clap-exact", exact, deleg["sp"],
+                "FromStr delegates to ValueEnum::from_str(s, ignore_case = %r): %s" % (
+                    flag, "exact names only" if exact else "strings that are not one of the 36 names (other letter case) are accepted"))
+        T_clap0 = clap_table(b_clap)
+        T_parse = {row["text"]: [{"variant": k, "guard": False, "site": row["site"]}] for k, row in T_clap0.items() if row["text"] is not None}
+        wild = {"err": True, "site": deleg["sp"]}
+    else:
+        T_parse, wild = parse_table(b_parse)
     T_show = show_table(b_show)
     T_clap = clap_table(b_clap)
     for name, tab in (("build", T_build), ("show", T_show), ("clap", T_clap)):
